@@ -105,8 +105,13 @@ pub fn run_c14(a: &Args) {
             let mut slots: Vec<(usize, String)> = vec![]; let mut off = 2;
             for (name, at) in k.fixed { if matches!(at, Atom::Custom(Custom::Track, _)) { slots.push((off, name.to_string())); } off += width(at); }
             if let Tail::Vec { elt, .. } = k.tail { let ew = fixed_width(elt); let mut eo = 0; for (name, at) in elt { if matches!(at, Atom::Custom(Custom::Track, _)) { for e in 0..2 { slots.push((2 + fixed_width(k.fixed) + e * ew + eo, format!("[{e}].{name}"))); } } eo += width(at); } }
+            if slots.is_empty() { continue; }
+            // the track field means the same whatever the packet's OTHER fields hold: the base frame, and the base frame with each defined bit
+            // of each of its flag fields set on its own
+            let mut bases: Vec<Vec<u8>> = vec![f.clone()]; { let mut fo = 2; for (_, at) in k.fixed { if let Atom::Flags { w, mask } = at { for bit in 0..(8 * *w) { if (mask >> bit) & 1 == 1 { let mut g = f.clone(); let v: u64 = 1 << bit; for i in 0..*w { if fo + i < g.len() { g[fo + i] = (v >> (8 * i)) as u8; } } bases.push(g); } } } fo += width(at); } }
             for (o, name) in slots { if o + 6 > f.len() { continue; } nslots += 1;
-                for (b, valid) in samples.iter() {
+                for (bi, f) in bases.iter().enumerate() { for (b, valid) in samples.iter() {
+                    if bi > 0 && *valid && b[0] != 0 && st.evaluations % 5 != 0 { continue; }   // the full set of valid codes on the base frame only
                     let mut g = f.clone(); g[o..o + 6].copy_from_slice(b); st.evaluations += 1;
                     let id = format!("tframe {} {o} {}", if compressed { "C" } else { "U" }, hex(&g));
                     match decode_buf(compressed, &g) {
@@ -115,7 +120,7 @@ pub fn run_c14(a: &Args) {
                         Dec::Bad(_) => if *valid { st.fail(format!("[C14] {}.{name}: the wire form {} of a configuration makes the packet undecodable", k.name, hex(b)), id.clone()); },
                         d => st.fail(format!("[C14] {}.{name}: decoder outcome {}", k.name, cls_string(&d)), id.clone()),
                     }
-                }
+                } }
             }
         } }
         st.notes.push(format!("track fields inside packets: {nslots} (kinds x fields x modes), {} values each", samples.len()));
